@@ -233,12 +233,24 @@ func c19OwnAuthority() (caPEM, srvCrt, srvKey []byte, creds []c19Cred, err error
 	if err != nil {
 		return fail(err)
 	}
-	srvCert, srvPriv, srvCrt, srvKey, err := c19Mint(c19MintOpts{Subject: pkix.Name{CommonName: "signer-test01"}, DNS: []string{"signer-test01"}, Parent: ca, SignKey: caKey})
+	// The server's certificate comes from an authority of its own, through an intermediate that is part of the server's
+	// certificate bundle: neither is the authority configured for callers.
+	srvRoot, srvRootKey, _, _, err := c19Mint(c19MintOpts{Subject: pkix.Name{CommonName: "Server authority"}, IsCA: true})
 	if err != nil {
 		return fail(err)
 	}
+	srvInter, srvInterKey, srvInterPEM, _, err := c19Mint(c19MintOpts{Subject: pkix.Name{CommonName: "Server intermediate"}, IsCA: true, Parent: srvRoot, SignKey: srvRootKey})
+	if err != nil {
+		return fail(err)
+	}
+	srvCert, srvPriv, srvLeafPEM, srvKey, err := c19Mint(c19MintOpts{Subject: pkix.Name{CommonName: "signer-test01"}, DNS: []string{"signer-test01"}, Parent: srvInter, SignKey: srvInterKey})
+	if err != nil {
+		return fail(err)
+	}
+	srvCrt = append(append([]byte{}, srvLeafPEM...), srvInterPEM...)
 	pool := x509.NewCertPool()
 	pool.AddCert(ca)
+	pool.AddCert(srvRoot)
 	dial := func(chain [][]byte, key *ecdsa.PrivateKey) func(string, int) (*grpc.ClientConn, error) {
 		return func(addr string, localPort int) (*grpc.ClientConn, error) {
 			c := tls.Certificate{Certificate: chain, PrivateKey: key}
@@ -280,6 +292,9 @@ func c19OwnAuthority() (caPEM, srvCrt, srvKey []byte, creds []c19Cred, err error
 		add("own authority: client-test02 issued through an intermediate named signer-test02", true, "client-test02", false, cn("client-test02"), nil, interPeer, interPeerKey, interPeer.Raw),
 		add("own authority: client-test02 through an intermediate, with the authority's certificate appended", true, "client-test02", false, cn("client-test02"), nil, interClient, interClientKey, interClient.Raw, ca.Raw),
 		add("client-test01 issued by the server's own certificate", false, "", false, cn("client-test01"), nil, srvCert, srvPriv, srvCert.Raw),
+		add("client-test01 issued by the intermediate of the server's certificate bundle", false, "", false, cn("client-test01"), nil, srvInter, srvInterKey),
+		add("client-test01 issued by that intermediate, presented with it", false, "", false, cn("client-test01"), nil, srvInter, srvInterKey, srvInter.Raw),
+		add("signer-test02 issued by the authority of the server's certificate", false, "", false, cn("signer-test02"), nil, srvRoot, srvRootKey, srvRoot.Raw),
 		add("client-test01 issued by an authority with the configured authority's name but another key", false, "", false, cn("client-test01"), nil, lookalike, lookalikeKey),
 		add("client-test01 issued by that look-alike authority, its certificate appended", false, "", false, cn("client-test01"), nil, lookalike, lookalikeKey, lookalike.Raw),
 		add("self-signed client-test01 followed by the configured authority's certificate", false, "", false, cn("client-test01"), nil, nil, nil, ca.Raw),
@@ -754,7 +769,7 @@ func C19(tier string) int {
 	run.Coverage = map[string]any{
 		"evaluations":         cells,
 		"distinct_nontrivial": len(classes),
-		"rule":                "a real API server (services/api/grpc with the repository's CA and server certificate) on loopback TCP; every one of the 16 RPC methods of the 5 registered services x every credential kind (plaintext, TLS without client certificate, self-signed CN=client-test01, certificate from a freshly generated other authority with and without its CA in the chain, valid client-test01/02/03, valid signer-test02, valid leaf followed by unverified certificates; and, against a second server configured with an authority of the harness's own: names split over CN / DNS names / O / OU, empty CN, leaves issued through intermediates named like a permitted client or a peer, certificates issued by the server's own certificate, by a look-alike authority of the same name, and a self-signed leaf followed by the authority's certificate; and against a third server with no authority configured while the host's trust store (SSL_CERT_FILE) contains the harness's authority: every one of those callers must be refused) x wallets; unauthenticated kinds must yield no signature, account entry, key-generation reply or accepted protocol message and must not change the instance's state digest (all slashing records, lock states, account population, sessions); valid certificates are served according to the permissions of the certificate's subject name, clients cannot speak the key-generation protocol; then every ordered pair of callers (quick: three valid subjects incl. the peer as first, those and three unauthenticated kinds as second, five methods; thorough: every credential kind in both roles and every method) where the second connects from the very source address (ip:port) the first one used for a call and closed, judged as if the first had never existed; distinct = (credential, method, yielded, changed) classes",
+		"rule":                "a real API server (services/api/grpc with the repository's CA and server certificate) on loopback TCP; every one of the 16 RPC methods of the 5 registered services x every credential kind (plaintext, TLS without client certificate, self-signed CN=client-test01, certificate from a freshly generated other authority with and without its CA in the chain, valid client-test01/02/03, valid signer-test02, valid leaf followed by unverified certificates; and, against a second server configured with an authority of the harness's own: names split over CN / DNS names / O / OU, empty CN, leaves issued through intermediates named like a permitted client or a peer, certificates issued by the server's own certificate, by the intermediate in the server's certificate bundle and by the root above it (the server's certificate comes from a different authority than the callers'), by a look-alike authority of the same name, and a self-signed leaf followed by the authority's certificate; and against a third server with no authority configured while the host's trust store (SSL_CERT_FILE) contains the harness's authority: every one of those callers must be refused) x wallets; unauthenticated kinds must yield no signature, account entry, key-generation reply or accepted protocol message and must not change the instance's state digest (all slashing records, lock states, account population, sessions); valid certificates are served according to the permissions of the certificate's subject name, clients cannot speak the key-generation protocol; then every ordered pair of callers (quick: three valid subjects incl. the peer as first, those and three unauthenticated kinds as second, five methods; thorough: every credential kind in both roles and every method) where the second connects from the very source address (ip:port) the first one used for a call and closed, judged as if the first had never existed; distinct = (credential, method, yielded, changed) classes",
 		"samples":             samples.List(),
 		"exhaustive":          true,
 		"methods":             len(methods),
